@@ -138,10 +138,18 @@ func Inject(r *rng.R, p *Program) (Injection, bool) {
 			f.Path = path.Join(path.Dir(f.Path), name+".thrift")
 			return "file renamed to " + f.Path, true
 		}},
-		{"go-keyword-names", "A", func() (string, bool) { return "fields/arguments named like Go keywords", in.renameFields(goKeywordNames) }},
-		{"predeclared-names", "A", func() (string, bool) { return "fields/arguments named like predeclared identifiers", in.renameFields(predeclared) }},
-		{"template-local-names", "A", func() (string, bool) { return "fields/arguments named like variables of the templates", in.renameFields(templateLocals) }},
-		{"initialism-names", "A", func() (string, bool) { return "fields/arguments with initialisms and SCREAMING_CASE", in.renameFields(initialismNames) }},
+		{"go-keyword-names", "A", func() (string, bool) {
+			return "fields/arguments named like Go keywords", in.renameFields(goKeywordNames)
+		}},
+		{"predeclared-names", "A", func() (string, bool) {
+			return "fields/arguments named like predeclared identifiers", in.renameFields(predeclared)
+		}},
+		{"template-local-names", "A", func() (string, bool) {
+			return "fields/arguments named like variables of the templates", in.renameFields(templateLocals)
+		}},
+		{"initialism-names", "A", func() (string, bool) {
+			return "fields/arguments with initialisms and SCREAMING_CASE", in.renameFields(initialismNames)
+		}},
 		{"keyword-type-and-const-names", "A", func() (string, bool) {
 			names := in.some(goKeywordNames, 3)
 			ds := p.AllDefs()
@@ -240,7 +248,7 @@ func Inject(r *rng.R, p *Program) (Injection, bool) {
 			if d == nil {
 				return "", false
 			}
-			n := []string{"toWire", "FromWire", "encode", "Decode", "string", "Equals", "error", "Error", "ptr", "MarshalLogObject", "methodName", "EnvelopeType", "Default", "errorName"}[r.Intn(14)]
+			n := []string{"toWire", "FromWire", "encode", "Decode", "string", "Equals", "error", "Error", "ptr", "marshalLogArray", "methodName", "EnvelopeType", "Default", "errorName"}[r.Intn(14)]
 			if n == "string" {
 				n = "String"
 			}
@@ -376,6 +384,23 @@ func Inject(r *rng.R, p *Program) (Injection, bool) {
 				{ID: 2, Name: "m2", Req: Optional, Type: &Type{K: Map, Key: &Type{K: List, Elem: ref(l)}, Elem: ref(a)}}}}
 			f.Defs = append(f.Defs, l, a, h)
 			return "struct List with map<List,list<A>> and map<list<List>,A>", true
+		}},
+		{"D26-field-named-MarshalLogObject", "K:D26", func() (string, bool) {
+			d := in.pickDef(in.structs(1))
+			if d == nil {
+				return "", false
+			}
+			d.Fields[0].Name, d.Fields[0].GoName = []string{"MarshalLogObject", "marshalLogObject"}[r.Intn(2)], ""
+			return "field named MarshalLogObject (clashes with the generated zap method unless --no-zap)", true
+		}},
+		{"D27-argument-named-like-enveloper-method", "K:D27", func() (string, bool) {
+			for _, fn := range in.funcs() {
+				if len(fn.Args) > 0 {
+					fn.Args[0].Name, fn.Args[0].GoName = []string{"methodName", "envelopeType", "MethodName"}[r.Intn(3)], ""
+					return "function argument named " + fn.Args[0].Name + " (clashes with the generated MethodName/EnvelopeType methods of the args struct)", true
+				}
+			}
+			return "", false
 		}},
 		{"D21-struct-literal-default-in-cycle", "K:D21", func() (string, bool) {
 			f := p.Files[r.Intn(len(p.Files))]
